@@ -18,7 +18,9 @@ from . import domain as D
 from . import pyview
 from .common import NCPU, import_doctrans
 
-DEFAULT_OPTS = {"dd": True, "wrap": True, "ftype": "static", "inline": True, "kwonly": False, "indent": 2, "view": False}
+# xo: one further emitter option away from its default ("" = all defaults): septab (function: emit_separating_tab flipped),
+#     call (class: emit_call), nobases / dictbase / deco (class: class_bases, decorator_list), wrapdesc (argparse: wrap_description)
+DEFAULT_OPTS = {"dd": True, "wrap": True, "ftype": "static", "inline": True, "kwonly": False, "indent": 2, "view": False, "xo": ""}
 
 _T = {}
 
@@ -51,16 +53,23 @@ def do_emit(kind, o, ir):
 
     if kind in ("rest", "numpydoc", "google"):
         return emit.docstring(ir, docstring_format=kind, word_wrap=o["wrap"], emit_default_doc=o["dd"]), None
+    xo = o.get("xo", "")
     if kind == "class":
-        node = emit.class_(ir, class_name="ConfigClass", word_wrap=o["wrap"], emit_default_doc=o["dd"])
+        kw = {"call": {"emit_call": True}, "nobases": {"class_bases": tuple()}, "dictbase": {"class_bases": ("dict",)},
+              "deco": {"decorator_list": ["identity_deco"]}}.get(xo, {})
+        node = emit.class_(ir, class_name="ConfigClass", word_wrap=o["wrap"], emit_default_doc=o["dd"], **kw)
         return to_code(node), node
     if kind in ("function", "method"):
+        kw = {}
+        if xo == "septab":
+            from doctrans.pure_utils import PY3_8
+            kw["emit_separating_tab"] = not PY3_8
         node = emit.function(ir, function_name="f", function_type=o["ftype"], word_wrap=o["wrap"],
                              emit_default_doc=o["dd"], indent_level=o["indent"], inline_types=o["inline"],
-                             emit_as_kwonlyargs=o["kwonly"])
+                             emit_as_kwonlyargs=o["kwonly"], **kw)
         return to_code(node), node
     if kind == "argparse":
-        node = emit.argparse_function(ir, emit_default_doc=o["dd"], word_wrap=o["wrap"])
+        node = emit.argparse_function(ir, emit_default_doc=o["dd"], word_wrap=o["wrap"], **({"wrap_description": True} if xo == "wrapdesc" else {}))
         return to_code(node), node
     raise ValueError(kind)
 
